@@ -33,7 +33,7 @@ theorem collectSel_complete (s : SchemaD) : ∀ (parent : Option String) (x : Se
     rw [getD_add]
     show e ∈ (if rn = responseName alias name then
       AL.getD fm (responseName alias name) [] ++
-        [({ parent, name, args, hasSub, ssid, sub, fdef := parent.bind fun p => fieldOf s p name } : FEntry)]
+        [({ parent, name, args, hasSub, ssid, sub, fdef := parent.bind fun p => ovFieldOf s p name } : FEntry)]
       else AL.getD fm rn [])
     rcases h with h | h
     · by_cases hr : rn = responseName alias name
